@@ -236,6 +236,27 @@ pub fn run(args: &Args) -> i32 {
             loc.sample(json!({"prefix": hex(&[alpha[d[0] as usize], alpha[d[1] as usize], alpha[d[2] as usize]]), "last_byte": "whole alphabet"}));
         }
     });
+    if thorough {
+        // every 5-byte and 3-byte string over the 51-symbol alphabet of the quick tier (one byte more / less than a name)
+        let a5: Vec<u8> = b"0123456789ABCDEFGHIJKLMNOPQRSTUVWXYZabcfpvw _+-./\0\x7f".to_vec();
+        let n5 = a5.len() as u64;
+        rep.run("names-5-bytes", n5 * n5 * n5 * n5, 120, true, &format!("every 5-byte string over {n5} ASCII symbols (one case = {n5} strings) - none is a documented name"), |idx, loc| {
+            let d = unrank(idx, &[n5, n5, n5, n5]);
+            for &c in &a5 {
+                let bytes = [a5[d[0] as usize], a5[d[1] as usize], a5[d[2] as usize], a5[d[3] as usize], c];
+                check_name(std::str::from_utf8(&bytes).unwrap(), loc);
+            }
+            loc.bulk(n5, 0, "parsed");
+        });
+        rep.run("names-3-bytes", n5 * n5, 60, true, &format!("every 3-byte string over {n5} ASCII symbols (one case = {n5} strings)"), |idx, loc| {
+            let d = unrank(idx, &[n5, n5]);
+            for &c in &a5 {
+                let bytes = [a5[d[0] as usize], a5[d[1] as usize], c];
+                check_name(std::str::from_utf8(&bytes).unwrap(), loc);
+            }
+            loc.bulk(n5, 0, "parsed");
+        });
+    }
     // other lengths and non-ASCII
     let maxlen = if thorough { 5 } else { 4 };
     let mut total = 0u64;
